@@ -8,7 +8,7 @@ EXTENDS FedRequest, Json
 MethodsAll  == {"GET", "PUT", "POST", "DELETE"}
 URIsQuick   == {"plain", "query", "escape"}
 URIsAll     == {"plain", "query", "escape", "emptyq", "dslash", "unicode", "long"}
-ShapesO     == {"dns", "port", "ipv4", "ipv6", "invalid"}
+ShapesO     == {"dns", "port", "ipv4", "ipv6"} \cup InvalidOrigins
 ShapesD     == {"dns", "port", "ipv4", "ipv6", "invalid"}
 BodiesAll   == {"none", "obj", "arr", "nonutf8"}
 StylesAll   == {"canon", "reorder", "spaces", "bare", "empties"}
